@@ -661,7 +661,9 @@ Proof.
     as (u & su & A & B & C).
   exists u, su. split; [exact A|]. split; [exact B|]. split; [exact C|].
   split; [cbn [six_ops six]; repeat split; repeat constructor; vm_compute; auto|].
-  revert A. vm_compute. intros A. injection A as <-. vm_compute. repeat split.
+  assert (exists x, toy_parse (str "https://u:p@h:81/a?q#f") = Some x /\ x = u) as (x & E & Ex)
+    by (exists u; split; [exact A | reflexivity]).
+  vm_compute in E. injection E as E. subst u. rewrite <- E. vm_compute. repeat split.
 Qed.
 
 (* ---------- hostname; seven setters ---------- *)
